@@ -2,6 +2,7 @@ package nfa
 
 import (
 	"regexp/syntax"
+	"unicode/utf8"
 )
 
 // BranchDispatcher provides O(1) branch selection for anchored alternations.
@@ -29,7 +30,9 @@ type BranchDispatcher struct {
 	canMatchEmpty bool
 }
 
-// branchMatcher is a simple matcher for a single alternation branch.
+// branchMatcher is a simple matcher for a single alternation branch:
+// an optional ASCII literal followed by an optional ASCII char class
+// (x, x+ or x*). Everything else is rejected by buildBranchMatcher.
 type branchMatcher struct {
 	// For literal branches like "UUID"
 	literal []byte
@@ -37,6 +40,7 @@ type branchMatcher struct {
 	// For char class+ branches like \d+
 	charClass    [256]bool
 	minMatch     int
+	maxOne       bool // class is not repeated: it matches exactly one byte
 	hasCharClass bool
 }
 
@@ -96,7 +100,11 @@ func NewBranchDispatcher(re *syntax.Regexp) *BranchDispatcher {
 		}
 
 		// Build specialized matcher for this branch
-		branchMatchers[i] = buildBranchMatcher(branch)
+		m, ok := buildBranchMatcher(branch)
+		if !ok {
+			return nil // Branch shape the byte-wise matcher cannot reproduce exactly
+		}
+		branchMatchers[i] = m
 	}
 
 	return &BranchDispatcher{
@@ -108,9 +116,10 @@ func NewBranchDispatcher(re *syntax.Regexp) *BranchDispatcher {
 }
 
 // buildBranchMatcher creates an optimized matcher for a single branch.
-//
-//nolint:gocognit // Pattern matching naturally has high branching factor
-func buildBranchMatcher(re *syntax.Regexp) branchMatcher {
+// It reports false when the branch is not exactly "ASCII literal, then ASCII
+// class": the matcher works byte-wise and without backtracking, so it must not
+// approximate anything else (the pattern then uses the general engines).
+func buildBranchMatcher(re *syntax.Regexp) (branchMatcher, bool) {
 	var m branchMatcher
 
 	// Unwrap capture if present
@@ -121,115 +130,74 @@ func buildBranchMatcher(re *syntax.Regexp) branchMatcher {
 	switch re.Op {
 	case syntax.OpLiteral:
 		// Literal like "UUID"
-		m.literal = make([]byte, len(re.Rune))
-		for i, r := range re.Rune {
-			if r > 255 {
-				return m // Non-ASCII, can't optimize
-			}
-			m.literal[i] = byte(r)
-		}
+		return m, m.setLiteral(re)
 
-	case syntax.OpPlus:
-		// char_class+ like \d+
-		if len(re.Sub) == 1 && re.Sub[0].Op == syntax.OpCharClass {
-			cc := re.Sub[0]
-			for i := 0; i < len(cc.Rune); i += 2 {
-				lo, hi := cc.Rune[i], cc.Rune[i+1]
-				if hi > 255 {
-					hi = 255
-				}
-				if lo > 255 {
-					continue
-				}
-				for r := lo; r <= hi; r++ {
-					m.charClass[byte(r)] = true
-				}
-			}
-			m.hasCharClass = true
-			m.minMatch = 1
-		}
-
-	case syntax.OpStar:
-		// char_class* like \d*
-		if len(re.Sub) == 1 && re.Sub[0].Op == syntax.OpCharClass {
-			cc := re.Sub[0]
-			for i := 0; i < len(cc.Rune); i += 2 {
-				lo, hi := cc.Rune[i], cc.Rune[i+1]
-				if hi > 255 {
-					hi = 255
-				}
-				if lo > 255 {
-					continue
-				}
-				for r := lo; r <= hi; r++ {
-					m.charClass[byte(r)] = true
-				}
-			}
-			m.hasCharClass = true
-			m.minMatch = 0
-		}
+	case syntax.OpCharClass, syntax.OpPlus, syntax.OpStar:
+		// char_class, char_class+ like \d+, char_class* like \d*
+		return m, m.setClass(re)
 
 	case syntax.OpConcat:
-		// Concatenation - check if starts with literal
-		if len(re.Sub) > 0 && re.Sub[0].Op == syntax.OpLiteral {
-			lit := re.Sub[0]
-			m.literal = make([]byte, len(lit.Rune))
-			for i, r := range lit.Rune {
-				if r > 255 {
-					return branchMatcher{} // Non-ASCII
-				}
-				m.literal[i] = byte(r)
-			}
-		}
+		// Literal followed by a class, like ba[rz] (factored bar|baz) or v\d+
+		ok := len(re.Sub) == 2 && m.setLiteral(re.Sub[0]) && m.setClass(re.Sub[1])
+		return m, ok
 	}
 
-	return m
+	return m, false
+}
+
+// setLiteral records a case-sensitive ASCII literal. A non-ASCII rune is
+// multi-byte in UTF-8 and a (?i) literal has several spellings: both are refused.
+func (m *branchMatcher) setLiteral(re *syntax.Regexp) bool {
+	if re.Op != syntax.OpLiteral || re.Flags&syntax.FoldCase != 0 {
+		return false
+	}
+	m.literal = make([]byte, len(re.Rune))
+	for i, r := range re.Rune {
+		if r >= utf8.RuneSelf {
+			return false
+		}
+		m.literal[i] = byte(r)
+	}
+	return true
+}
+
+// setClass records a greedy ASCII-only class: x, x+ or x*. Classes containing
+// non-ASCII runes (multi-byte in UTF-8) and lazy repetitions are refused.
+func (m *branchMatcher) setClass(re *syntax.Regexp) bool {
+	cc := re
+	switch re.Op {
+	case syntax.OpCharClass:
+		m.minMatch, m.maxOne = 1, true
+	case syntax.OpPlus, syntax.OpStar:
+		if len(re.Sub) != 1 || re.Flags&syntax.NonGreedy != 0 {
+			return false
+		}
+		cc = re.Sub[0]
+		if re.Op == syntax.OpPlus {
+			m.minMatch = 1
+		}
+	}
+	if cc.Op != syntax.OpCharClass {
+		return false
+	}
+	for i := 0; i < len(cc.Rune); i += 2 {
+		lo, hi := cc.Rune[i], cc.Rune[i+1]
+		if hi >= utf8.RuneSelf {
+			return false
+		}
+		for r := lo; r <= hi; r++ {
+			m.charClass[byte(r)] = true
+		}
+	}
+	m.hasCharClass = true
+	return true
 }
 
 // IsMatch returns true if the haystack matches the pattern.
 // Only checks at position 0 (for anchored patterns).
 func (d *BranchDispatcher) IsMatch(haystack []byte) bool {
-	if len(haystack) == 0 {
-		return d.canMatchEmpty
-	}
-
-	// O(1) dispatch based on first byte
-	branchIdx := d.dispatch[haystack[0]]
-	if branchIdx < 0 {
-		return false
-	}
-
-	// Try the selected branch with optimized matcher
-	m := &d.branchMatchers[branchIdx]
-
-	if len(m.literal) > 0 {
-		// Literal match
-		if len(haystack) < len(m.literal) {
-			return false
-		}
-		for i, b := range m.literal {
-			if haystack[i] != b {
-				return false
-			}
-		}
-		return true
-	}
-
-	if m.hasCharClass {
-		// Char class match
-		count := 0
-		for _, b := range haystack {
-			if !m.charClass[b] {
-				break
-			}
-			count++
-		}
-		return count >= m.minMatch
-	}
-
-	// Fallback: we know first byte matched, assume true for simple cases
-	// This is conservative - may return true for partial matches
-	return true
+	_, _, found := d.Search(haystack)
+	return found
 }
 
 // Search finds the first match starting at position 0.
@@ -251,36 +219,32 @@ func (d *BranchDispatcher) Search(haystack []byte) (int, int, bool) {
 	// Try the selected branch with optimized matcher
 	m := &d.branchMatchers[branchIdx]
 
-	if len(m.literal) > 0 {
-		// Literal match
-		if len(haystack) < len(m.literal) {
-			return -1, -1, false
-		}
-		for i, b := range m.literal {
-			if haystack[i] != b {
-				return -1, -1, false
-			}
-		}
-		return 0, len(m.literal), true
-	}
-
-	if m.hasCharClass {
-		// Char class match - greedy
-		count := 0
-		for _, b := range haystack {
-			if !m.charClass[b] {
-				break
-			}
-			count++
-		}
-		if count >= m.minMatch {
-			return 0, count, true
-		}
+	// Literal match
+	n := len(m.literal)
+	if len(haystack) < n {
 		return -1, -1, false
 	}
+	for i, b := range m.literal {
+		if haystack[i] != b {
+			return -1, -1, false
+		}
+	}
+	if !m.hasCharClass {
+		return 0, n, true
+	}
 
-	// Fallback: return position 0 with length 1 (conservative)
-	return 0, 1, true
+	// Char class match after the literal - greedy
+	count := 0
+	for _, b := range haystack[n:] {
+		if !m.charClass[b] || (m.maxOne && count == 1) {
+			break
+		}
+		count++
+	}
+	if count >= m.minMatch {
+		return 0, n + count, true
+	}
+	return -1, -1, false
 }
 
 // IsBranchDispatchPattern checks if pattern is suitable for branch dispatch.
